@@ -11,9 +11,10 @@ import DlmsVerif.Model.Xdlms
 import DlmsVerif.Props.C14
 import DlmsVerif.Props.C16
 import DlmsVerif.Props.C20
+import DlmsVerif.Lemmas.Xdlms
 
 namespace Props.C01
-open Dlms Spec.Xdlms Model.Xdlms
+open Dlms Spec.Xdlms Model.Xdlms Lemmas.Xdlms
 
 def classIds : List Nat := Gen.Enums.cosemInterface
 
@@ -34,7 +35,7 @@ theorem C01_tables :
      Gen.Enums.serviceError, Gen.Enums.definitionError, Gen.Enums.accessError, Gen.Enums.initiateError,
      Gen.Enums.loadDataError, Gen.Enums.dataScopeError, Gen.Enums.taskError, Gen.Enums.otherError]
       = serviceErrorMembers.map (·.2) := by
-  sorry
+  refine ⟨?_, ?_, ?_, ?_, ?_, ?_, ?_, ?_, ?_, ?_, ?_⟩ <;> decide
 
 /-- the APDU tag of every kind, as the decoder's dispatch table has it. -/
 def tagOf : Apdu → Nat × String
@@ -59,26 +60,306 @@ def tagOf : Apdu → Nat × String
     holds the decoder of that APDU kind. -/
 theorem C01_dispatch (a : Apdu) :
     (encode a).head? = some (UInt8.ofNat (tagOf a).1) ∧ tagOf a ∈ Gen.Enums.apduMap := by
-  sorry
+  cases a <;> exact ⟨rfl, by simp only [tagOf]; decide⟩
+
+/-! one lemma per APDU kind -/
+
+private theorem hcs : ∀ c ∈ classIds, c < 65536 := by decide
+
+private theorem d1 (inv d sel) (h : wf classIds (.getRequestNormal inv d sel) = true) :
+    decode (encode (.getRequestNormal inv d sel)) = some (.getRequestNormal inv d sel) := by
+  simp only [wf, Bool.and_eq_true] at h
+  obtain ⟨⟨hi, hd⟩, hs⟩ := h
+  cases sel with
+  | none =>
+    obtain ⟨h1, h2⟩ := desc_take_drop classIds hcs d hd [0]
+    simp only [encode, List.cons_append, List.nil_append]
+    conv => lhs; whnf
+    rw [h1, h2, invokeOf_invokeByte inv hi]
+    rfl
+  | some s =>
+    obtain ⟨h1, h2⟩ := desc_take_drop classIds hcs d hd (1 :: s)
+    simp only [encode, List.cons_append, List.nil_append]
+    conv => lhs; whnf
+    rw [h1, h2, invokeOf_invokeByte inv hi]
+    simp only [Bool.not_eq_true'] at hs
+    simp [hs]
+
+private theorem d2 (inv block) (h : wf classIds (.getRequestNext inv block) = true) :
+    decode (encode (.getRequestNext inv block)) = some (.getRequestNext inv block) := by
+  simp only [wf, Bool.and_eq_true, decide_eq_true_eq] at h
+  obtain ⟨hi, hb⟩ := h
+  obtain ⟨b3, b2, b1, b0, hbe, hn⟩ := be4_split block
+  simp only [encode, hbe, List.cons_append, List.nil_append]
+  conv => lhs; whnf
+  rw [hn hb, invokeOf_invokeByte inv hi]
+
+private theorem d3 (inv data) (h : wf classIds (.getResponseNormal inv data) = true) :
+    decode (encode (.getResponseNormal inv data)) = some (.getResponseNormal inv data) := by
+  simp only [wf] at h
+  simp only [encode, List.cons_append, List.nil_append]
+  conv => lhs; whnf
+  rw [invokeOf_invokeByte inv h]
+
+private theorem d4 (inv err) (h : wf classIds (.getResponseNormalWithError inv err) = true) :
+    decode (encode (.getResponseNormalWithError inv err)) = some (.getResponseNormalWithError inv err) := by
+  simp only [wf, Bool.and_eq_true] at h
+  obtain ⟨hi, he⟩ := h
+  simp only [encode]
+  conv => lhs; whnf
+  rw [invokeOf_invokeByte inv hi, dar_toNat _ he]
+
+private theorem d5 (inv block data) (h : wf classIds (.getResponseWithBlock inv block data) = true) :
+    decode (encode (.getResponseWithBlock inv block data)) = some (.getResponseWithBlock inv block data) := by
+  simp only [wf, Bool.and_eq_true, decide_eq_true_eq] at h
+  obtain ⟨⟨hi, hb⟩, hl⟩ := h
+  obtain ⟨b3, b2, b1, b0, hbe, hn⟩ := be4_split block
+  have ht := takeOctets_octets data [] hl
+  rw [List.append_nil] at ht
+  simp only [encode, hbe, List.cons_append, List.nil_append]
+  conv => lhs; whnf
+  rw [ht, hn hb, invokeOf_invokeByte inv hi]
+  rfl
+
+private theorem d6 (inv block data) (h : wf classIds (.getResponseLastBlock inv block data) = true) :
+    decode (encode (.getResponseLastBlock inv block data)) = some (.getResponseLastBlock inv block data) := by
+  simp only [wf, Bool.and_eq_true, decide_eq_true_eq] at h
+  obtain ⟨⟨hi, hb⟩, hl⟩ := h
+  obtain ⟨b3, b2, b1, b0, hbe, hn⟩ := be4_split block
+  have ht := takeOctets_octets data [] hl
+  rw [List.append_nil] at ht
+  simp only [encode, hbe, List.cons_append, List.nil_append]
+  conv => lhs; whnf
+  rw [ht, hn hb, invokeOf_invokeByte inv hi]
+  rfl
+
+private theorem d7 (inv block err) (h : wf classIds (.getResponseLastBlockWithError inv block err) = true) :
+    decode (encode (.getResponseLastBlockWithError inv block err)) = some (.getResponseLastBlockWithError inv block err) := by
+  simp only [wf, Bool.and_eq_true, decide_eq_true_eq] at h
+  obtain ⟨⟨hi, hb⟩, he⟩ := h
+  obtain ⟨b3, b2, b1, b0, hbe, hn⟩ := be4_split block
+  simp only [encode, hbe, List.cons_append, List.nil_append]
+  conv => lhs; whnf
+  rw [hn hb, invokeOf_invokeByte inv hi, dar_toNat _ he]
+
+private theorem d8 (inv d data) (h : wf classIds (.setRequestNormal inv d data) = true) :
+    decode (encode (.setRequestNormal inv d data)) = some (.setRequestNormal inv d data) := by
+  simp only [wf, Bool.and_eq_true] at h
+  obtain ⟨hi, hd⟩ := h
+  obtain ⟨h1, h2⟩ := desc_take_drop classIds hcs d hd (0 :: data)
+  simp only [encode, List.cons_append, List.nil_append, List.append_assoc]
+  conv => lhs; whnf
+  rw [h1, h2, invokeOf_invokeByte inv hi]
+  rfl
+
+private theorem d9 (inv r) (h : wf classIds (.setResponseNormal inv r) = true) :
+    decode (encode (.setResponseNormal inv r)) = some (.setResponseNormal inv r) := by
+  simp only [wf, Bool.and_eq_true] at h
+  obtain ⟨hi, he⟩ := h
+  simp only [encode]
+  conv => lhs; whnf
+  rw [invokeOf_invokeByte inv hi, dar_toNat _ he]
+
+private theorem d10 (inv d data) (h : wf classIds (.actionRequestNormal inv d data) = true) :
+    decode (encode (.actionRequestNormal inv d data)) = some (.actionRequestNormal inv d data) := by
+  simp only [wf, Bool.and_eq_true] at h
+  obtain ⟨hi, hd⟩ := h
+  cases data with
+  | nil =>
+    obtain ⟨h1, h2⟩ := desc_take_drop classIds hcs d hd [0]
+    simp only [encode, List.isEmpty_nil, if_true, List.cons_append, List.nil_append]
+    conv => lhs; whnf
+    rw [h1, h2, invokeOf_invokeByte inv hi]
+    rfl
+  | cons x xs =>
+    obtain ⟨h1, h2⟩ := desc_take_drop classIds hcs d hd (1 :: x :: xs)
+    simp only [encode, List.isEmpty_cons, Bool.false_eq_true, if_false, List.cons_append, List.nil_append]
+    conv => lhs; whnf
+    rw [h1, h2, invokeOf_invokeByte inv hi]
+    rfl
+
+private theorem d11 (inv st) (h : wf classIds (.actionResponseNormal inv st) = true) :
+    decode (encode (.actionResponseNormal inv st)) = some (.actionResponseNormal inv st) := by
+  simp only [wf, Bool.and_eq_true] at h
+  obtain ⟨hi, he⟩ := h
+  simp only [encode]
+  conv => lhs; whnf
+  rw [invokeOf_invokeByte inv hi, ar_toNat _ he]
+
+private theorem d12 (inv st data) (h : wf classIds (.actionResponseNormalWithData inv st data) = true) :
+    decode (encode (.actionResponseNormalWithData inv st data)) = some (.actionResponseNormalWithData inv st data) := by
+  simp only [wf, Bool.and_eq_true] at h
+  obtain ⟨hi, he⟩ := h
+  simp only [encode, List.cons_append, List.nil_append]
+  conv => lhs; whnf
+  rw [invokeOf_invokeByte inv hi, ar_toNat _ he]
+
+private theorem d13 (inv st err) (h : wf classIds (.actionResponseNormalWithError inv st err) = true) :
+    decode (encode (.actionResponseNormalWithError inv st err)) = some (.actionResponseNormalWithError inv st err) := by
+  simp only [wf, Bool.and_eq_true] at h
+  obtain ⟨⟨hi, hs⟩, he⟩ := h
+  simp only [encode]
+  conv => lhs; whnf
+  rw [invokeOf_invokeByte inv hi, ar_toNat _ hs, dar_toNat _ he]
+private theorem d14 (inv dt body) (h : wf classIds (.dataNotification inv dt body) = true) :
+    decode (encode (.dataNotification inv dt body)) = some (.dataNotification inv dt body) := by
+  simp only [wf, Bool.and_eq_true] at h
+  obtain ⟨hi, hd⟩ := h
+  obtain ⟨s,i2,i1,i0,hb,hid,h7,h6,h5,h4⟩ := longInvoke_split inv hi
+  cases dt with
+  | none =>
+    simp only [encode, hb, List.cons_append, List.nil_append]
+    conv => lhs; whnf
+    rw [hid,h7,h6,h5,h4]
+  | some d =>
+    simp only [Bool.and_eq_true, beq_iff_eq] at hd
+    obtain ⟨h1,h2,h3⟩ := dt_roundtrip d hd.1 hd.2 body
+    simp only [encode, hb, List.cons_append, List.nil_append]
+    rw [decode_dn_some _ _ _ _ _ d 0 h1 h2, h3, hid,h7,h6,h5,h4]
+
+private theorem d15 (state service counter) (h : wf classIds (.exceptionResponse state service counter) = true) :
+    decode (encode (.exceptionResponse state service counter)) = some (.exceptionResponse state service counter) := by
+  simp only [wf, Bool.and_eq_true, List.contains_iff_mem] at h
+  obtain ⟨⟨hst, hsv⟩, hc⟩ := h
+  have hst' : (UInt8.ofNat state).toNat = state :=
+    toNat_ofNat_lt _ ((by decide : ∀ x ∈ stateErrors, x < 256) state hst)
+  simp only [serviceErrors, List.mem_cons, List.not_mem_nil, or_false] at hsv
+  rcases hsv with rfl | rfl | rfl | rfl | rfl | rfl
+  case' inr.inr.inr.inr.inr =>
+    simp only [if_true, decide_eq_true_eq] at hc
+    obtain ⟨b3, b2, b1, b0, hbe, hn⟩ := be4_split counter
+    simp only [encode, if_true, hbe, List.cons_append, List.nil_append]
+    conv => lhs; whnf
+    rw [hst', hn hc]
+  all_goals
+    simp only [Nat.reduceEqDiff, if_false, beq_iff_eq] at hc
+    subst hc
+    simp only [encode, Nat.reduceEqDiff, if_false, List.append_nil]
+    conv => lhs; whnf
+    rw [hst']
+    rfl
+
+private theorem d16 (t v) (h : wf classIds (.confirmedServiceError t v) = true) :
+    decode (encode (.confirmedServiceError t v)) = some (.confirmedServiceError t v) := by
+  simp only [wf] at h
+  obtain ⟨x, hx, h1, h2⟩ := find_any _ _ _ h
+  have key : ∀ x ∈ serviceErrorMembers, x.1 < 256 ∧ ∀ v ∈ x.2, v < 256 := by decide
+  simp only [beq_iff_eq, List.contains_iff_mem] at h1 h2
+  obtain ⟨k1, k2⟩ := key x hx
+  have ht : (UInt8.ofNat t).toNat = t := toNat_ofNat_lt _ (h1 ▸ k1)
+  have hv : (UInt8.ofNat v).toNat = v := toNat_ofNat_lt _ (k2 v h2)
+  simp only [encode]
+  conv => lhs; whnf
+  rw [ht, hv]
+
+private theorem d17 (key ra qos ver conf maxPdu) (h : wf classIds (.initiateRequest key ra qos ver conf maxPdu) = true) :
+    decode (encode (.initiateRequest key ra qos ver conf maxPdu)) = some (.initiateRequest key ra qos ver conf maxPdu) := by
+  simp only [wf, Bool.and_eq_true, decide_eq_true_eq, beq_iff_eq] at h
+  obtain ⟨⟨⟨⟨hk, hq⟩, hv⟩, hc⟩, hm⟩ := h
+  obtain ⟨m1, m0, hbe, hn⟩ := be2_split maxPdu
+  have hcf := confOf_block conf hc [m1, m0]
+  have ht := fun R => takeOctets_octets key R hk
+  have hq' := toNat_ofNat_lt _ hq
+  have hv' := toNat_ofNat_lt _ hv
+  have hn := hn hm
+  simp only [encode, hbe, List.cons_append, List.nil_append, List.append_assoc]
+  generalize conformanceBlock conf ++ [m1, m0] = X at hcf ⊢
+  cases key <;> cases ra <;> by_cases hq0 : qos = 0 <;>
+    simp only [List.isEmpty_cons, List.isEmpty_nil, hq0, Bool.false_eq_true, if_false, if_true,
+      List.cons_append, List.nil_append] <;>
+    (conv => lhs; whnf) <;>
+    simp only [ht, hcf, hq', hv', hn] <;> rfl
+
+private theorem d18 (qos ver conf maxPdu) (h : wf classIds (.initiateResponse qos ver conf maxPdu) = true) :
+    decode (encode (.initiateResponse qos ver conf maxPdu)) = some (.initiateResponse qos ver conf maxPdu) := by
+  simp only [wf, Bool.and_eq_true, decide_eq_true_eq, beq_iff_eq] at h
+  obtain ⟨⟨⟨hq, hv⟩, hc⟩, hm⟩ := h
+  obtain ⟨m1, m0, hbe, hn⟩ := be2_split maxPdu
+  have hcf := confOf_block conf hc [m1, m0, 0, 7]
+  have hq' := toNat_ofNat_lt _ hq
+  have hv' := toNat_ofNat_lt _ hv
+  have hn := hn hm
+  simp only [encode, hbe, List.cons_append, List.nil_append, List.append_assoc]
+  generalize conformanceBlock conf ++ [m1, m0, 0, 7] = X at hcf ⊢
+  by_cases hq0 : qos = 0 <;>
+    simp only [hq0, if_false, if_true, List.cons_append, List.nil_append] <;>
+    (conv => lhs; whnf) <;>
+    simp only [hcf, hq', hv', hn] <;> rfl
+
+private theorem d19 (sc ic ct) (h : wf classIds (.gloInitiateRequest sc ic ct) = true) :
+    decode (encode (.gloInitiateRequest sc ic ct)) = some (.gloInitiateRequest sc ic ct) := by
+  simp only [wf, Bool.and_eq_true, decide_eq_true_eq] at h
+  obtain ⟨⟨hs, hi⟩, hl⟩ := h
+  have hg := gloOf_octets sc ic ct (scLt sc hs) hi hl
+  simp only [encode, List.cons_append, List.nil_append] at hg ⊢
+  conv => lhs; whnf
+  rw [hg]
+
+private theorem d20 (sc ic ct) (h : wf classIds (.gloInitiateResponse sc ic ct) = true) :
+    decode (encode (.gloInitiateResponse sc ic ct)) = some (.gloInitiateResponse sc ic ct) := by
+  simp only [wf, Bool.and_eq_true, decide_eq_true_eq] at h
+  obtain ⟨⟨hs, hi⟩, hl⟩ := h
+  have hg := gloOf_octets sc ic ct (scLt sc hs) hi hl
+  simp only [encode, List.cons_append, List.nil_append] at hg ⊢
+  conv => lhs; whnf
+  rw [hg]
+
+private theorem d21 (title sc ic ct) (h : wf classIds (.generalGlo title sc ic ct) = true) :
+    decode (encode (.generalGlo title sc ic ct)) = some (.generalGlo title sc ic ct) := by
+  simp only [wf, Bool.and_eq_true, decide_eq_true_eq] at h
+  obtain ⟨⟨⟨ht, hs⟩, hi⟩, hl⟩ := h
+  have hg := gloOf_octets sc ic ct (scLt sc hs) hi hl
+  have hto := takeOctets_octets title (octets ([UInt8.ofNat sc] ++ beBytes 4 ic ++ ct)) ht
+  simp only [encode, List.cons_append, List.nil_append] at hg hto ⊢
+  conv => lhs; whnf
+  rw [hto]
+  simp only [hg]
+  rfl
 
 /-- **decoding inverts encoding** for every well-formed APDU value of every kind: every
     invoke-id and flag, every enumeration member, every OBIS code, ids, block numbers,
     counters, and payloads / ciphertexts of every length. -/
 theorem C01_decode_encode (a : Apdu) (h : wf classIds a = true) : decode (encode a) = some a := by
-  sorry
+  cases a with
+  | getRequestNormal inv d sel => exact d1 inv d sel h
+  | getRequestNext inv block => exact d2 inv block h
+  | getResponseNormal inv data => exact d3 inv data h
+  | getResponseNormalWithError inv err => exact d4 inv err h
+  | getResponseWithBlock inv block data => exact d5 inv block data h
+  | getResponseLastBlock inv block data => exact d6 inv block data h
+  | getResponseLastBlockWithError inv block err => exact d7 inv block err h
+  | setRequestNormal inv d data => exact d8 inv d data h
+  | setResponseNormal inv result => exact d9 inv result h
+  | actionRequestNormal inv d data => exact d10 inv d data h
+  | actionResponseNormal inv status => exact d11 inv status h
+  | actionResponseNormalWithData inv status data => exact d12 inv status data h
+  | actionResponseNormalWithError inv status err => exact d13 inv status err h
+  | dataNotification inv dt body => exact d14 inv dt body h
+  | exceptionResponse state service counter => exact d15 state service counter h
+  | confirmedServiceError errType errVal => exact d16 errType errVal h
+  | initiateRequest key ra qos version conf maxPdu => exact d17 key ra qos version conf maxPdu h
+  | initiateResponse qos version conf maxPdu => exact d18 qos version conf maxPdu h
+  | gloInitiateRequest sc ic ct => exact d19 sc ic ct h
+  | gloInitiateResponse sc ic ct => exact d20 sc ic ct h
+  | generalGlo title sc ic ct => exact d21 title sc ic ct h
 
 /-- so **no two different values share an encoding**. -/
 theorem C01_encode_injective (a b : Apdu) (ha : wf classIds a = true) (hb : wf classIds b = true)
     (h : encode a = encode b) : a = b := by
-  sorry
+  have h1 := C01_decode_encode a ha
+  rw [h, C01_decode_encode b hb] at h1
+  exact (Option.some.inj h1).symm
 
 /-- the A-XDR length prefix of octet strings is read back for every length. -/
 theorem C01_octets_roundtrip (bs rest : Bytes) (h : Spec.Axdr.byteLen bs.length ≤ 127) :
     takeOctets (octets bs ++ rest) = some (bs, rest) := by
-  sorry
+  exact takeOctets_octets bs rest h
 
 /-- non-vacuity: a general-glo-ciphering APDU with 300 bytes of ciphertext is well-formed. -/
 example : wf classIds (.generalGlo [1, 2, 3, 4, 5, 6, 7, 8] 0x30 77 (List.replicate 300 1)) = true := by
-  sorry
+  have h1 := byteLen_small 8 (by omega)
+  have h2 := byteLen_small 305 (by omega)
+  simp only [wf, validScByte, List.length_replicate, List.length_cons, List.length_nil, Nat.reduceAdd, h1, h2]
+  decide
 
 end Props.C01
